@@ -353,7 +353,68 @@ def mixed_anchored_demux(ctx):
             ctx.nontriv(("mixed-anchored-demux", tuple(argv)))
 
 
+def repeated_placeholder_demux(ctx):
+    """an output template may name the adapter more than once (one directory or prefix per sample: `{name}/{name}.fastq`): every occurrence of
+    `{name}` / `{name1}` / `{name2}` is replaced. Exact copies, -e 0: the file of every read is known by construction, as is its name."""
+    rng = ctx.rng
+    for _ in range(ctx.scale(8, 100)):
+        comb = rng.random() < 0.4
+        # bodies are made of A and C only, every adapter starts with G/T: no chance occurrence, whole or partial
+        ads = [rng.choice("GT") + pipe.rs(rng, rng.randint(9, 11), "ACGT") for _ in range(rng.randint(2, 3))]
+        ads2 = [rng.choice("GT") + pipe.rs(rng, rng.randint(9, 11), "ACGT") for _ in range(2)]
+        if len(set(ads)) < len(ads) or len(set(ads2)) < 2:
+            continue
+        argv = ["--no-index", "-e", "0", "-O", "9"] + [t for i, a in enumerate(ads) for t in ("-a", f"s{i}={a}")]
+        discard = rng.random() < 0.4
+        if discard:
+            argv.append("--discard-untrimmed")
+        reads1, reads2, expect = [], [], {}
+        for i in range(rng.randint(8, 14)):
+            j = rng.choice([None] + list(range(len(ads))))
+            body = pipe.rs(rng, rng.randint(12, 20), "AC")
+            s1 = body + (ads[j] if j is not None else "")
+            reads1.append((f"r{i}", s1, "I" * len(s1)))
+            if comb:
+                j2 = rng.choice([None, 0, 1])
+                s2 = pipe.rs(rng, rng.randint(12, 20), "AC") + (ads2[j2] if j2 is not None else "")
+                reads2.append((f"r{i}", s2, "I" * len(s2)))
+                n1, n2 = ("unknown" if j is None else f"s{j}"), ("unknown" if j2 is None else f"t{j2}")
+                expect[f"r{i}"] = None if discard and (j is None or j2 is None) else f"dm-{n1}-{n2}-x-{n1}-{n2}"
+            else:
+                expect[f"r{i}"] = (None if discard else "dm-unknown-x-unknown") if j is None else f"dm-s{j}-x-s{j}"
+        if comb:
+            argv += [t for i, a in enumerate(ads2) for t in ("-A", f"t{i}={a}")]
+            argv += ["-o", "{dir}/dm-{name1}-{name2}-x-{name1}-{name2}.1.fastq", "-p", "{dir}/dm-{name1}-{name2}-x-{name1}-{name2}.2.fastq"]
+        else:
+            argv += ["-o", "{dir}/dm-{name}-x-{name}.1.fastq"]
+        case = dict(argv=argv, paired=comb, reads1=reads1, reads2=reads2 if comb else None, with_qual=True, interleaved_in=False)
+        res, real = pipe.run_real(case)
+        ctx.evaluations += 1
+        ctx.count("repeated-placeholder-demux" + ("-comb" if comb else ""))
+        inp = case_input(case)
+        if "error" in real:
+            ctx.failures.append(Failure("C15/run-failed", "demultiplexing with a template that names the adapter twice fails", inp, real["error"], None))
+            continue
+        braces = sorted(fn for fn in real["files"] if "{" in fn)
+        if braces:
+            ctx.failures.append(Failure("C15/placeholder-left-in-file-name", "an output file still has a placeholder in its name", inp, braces, None))
+            continue
+        where = {}
+        for fn, recs in real["files"].items():
+            for r in recs:
+                where.setdefault(rid(r[0]), set()).add(fn.rsplit(".", 2)[0])
+        for k_, name in expect.items():
+            exp = {name} if name else set()
+            if where.get(k_, set()) != exp:
+                ctx.failures.append(Failure("C15/wrong-file", "a read is not in the file that the template names after its adapter (every `{name}` replaced)",
+                                            inp, dict(read=k_, files=sorted(where.get(k_, set()))), sorted(exp)))
+                break
+        else:
+            ctx.nontriv(("repeated-placeholder-demux", tuple(argv)))
+
+
 def run(ctx):
+    repeated_placeholder_demux(ctx)
     pair_adapters_demux(ctx)
     mixed_anchored_demux(ctx)
     pipeprop.run(ctx, "C15", FOCUS, oracle, 120, 2500,
